@@ -531,7 +531,9 @@ def extract(ctx: Ctx):
     data = ex.main()
     bad = [r for r in data["routes"] if r["guard"] == ".none" and r["path"] not in EXEMPT]
     for r in bad:
-        log(f"[C03] route without a recognised privilege guard: {r['method']} {r['path']} -> {r['handler']} ({r['note']})")
+        msg = f"route without a recognised privilege guard: {r['method']} {r['path']} -> {r['handler']} ({r['note']})"
+        log(f"[C03] {msg}")
+        ctx.stats.notes.append(msg)
     ctx._extracted = data  # type: ignore[attr-defined]
 
 
